@@ -51,6 +51,8 @@ FORBIDDEN = [
     (r"\bstd::env\b|\benv::var\b|\benv!\(|\boption_env!\(", "environment access"),
     (r"\bSystemTime\b|\bInstant::now\b|\bstd::time\b", "clock access"),
     (r"\brand::|\bgetrandom\b", "randomness"),
+    (r"sort\w*\s*\(.*\bspan\s*\(\)|\{:\?\}[^;]*\bspan\s*\(\)|\bspan\s*\(\)[^;]*\{:\?\}|\bsource_text\(\)|\bSpan\b.*\b(start|end|line|column|byte_range)\s*\(\)",
+     "ordering / text derived from Span positions (depends on where the item stands in the file and on the syntax context)"),
     (r"\bstd::fs\b|\bFile::open\b", "file-system access at expansion time"),
     (r"\*\s*(const|mut)\s+\w|\bas\s+usize\b.*ptr|\bptr::addr\b|\.addr\(\)|\bas_ptr\(\)", "address-valued data (raw pointers / addresses: hashing or ordering by them depends on ASLR)"),
 ]
